@@ -117,6 +117,15 @@ CHECKS['C03'] = dict(
     design_ref='DESIGN.md 4/C03',
     note='Trusted: MIR = code; serde/toml value constructors and maps are abstract builtins; the serialisers\' text emission and any decoder are third-party code and outside the claim (replay still decodes the real output with python json / tomllib). Outside: Env and Constraint values, key quoting, string forms that look like other scalars.',
     technique='symbolic execution of rustc MIR over symbolically chosen tree shapes with symbolic scalars; z3 (BV + FP) decides isomorphism incl. exact numeric equality; replay through the real converter and an independent decoder')
+CHECKS['C12'] = dict(
+    category='model_checking',
+    text='The real xml converter (write, write_node, get_*_val) is executed from MIR with xml-rs\' EventWriter::write and XmlEvent builders as recording builtins. Document descriptions come from symbolic decisions: '
+         'declaration header (version absent/1.0/1.1/other/non-string, encoding, standalone, root absent/element/string/other) and element trees (depth 2 quick / 3 thorough) whose nodes are elements, {text=} tuples, '
+         'bare strings, other values or name+text tuples, with attrs absent/NULL/tuple(0..2 entries Str/NULL/non-string)/non-tuple, ns absent/string/{prefix,uri} with NULLs, children absent/NULL/list/non-list; text and '
+         'attribute values symbolic bytes. Per path the recorded event sequence must equal the reference traversal (byte-identical values by z3) and every malformed kind must return Err.',
+    design_ref='DESIGN.md 4/C12',
+    note='Trusted: MIR = code; xml-rs entry points are recording builtins. Outside (third-party, not encoded): escaping, well-formedness and indentation of the text xml-rs prints; name validity.',
+    technique='symbolic execution of rustc MIR over symbolically chosen document skeletons; event-sequence equality (z3 for text) per path (bounded: depth, children, attributes)')
 NOT_APPLICABLE = {
 }
 ALL = ['C%02d' % i for i in range(1, 21)]
